@@ -422,7 +422,7 @@ def gen_scenario(seed: int, optimizer: str, family: str, mode: str, validate, *,
     desc = {
         "seed": seed, "optimizer": optimizer, "config": cfg, "perturbed": perturbed, "task": task,
         "mode": mode, "workers": workers,
-        "sched": gen_sched(r, opts.get("p_line", 0.0) if mode == "thread" else 0.0) if mode != "serial" else {"policy": "fifo"},
+        "sched": gen_sched(r, opts.get("p_line", 0.05) if mode == "thread" else 0.0) if mode != "serial" else {"policy": "fifo"},
         "faults": gen_faults(r, mode, workers or 0, p_none=opts.get("p_no_faults", 0.45), kinds=opts.get("fault_kinds")),
     }
     desc["history"] = gen_history(r, task, p=opts.get("p_history", 0.2))
